@@ -105,6 +105,16 @@ Definition good_c10_streams (c : cfg) (x : ist) : bool :=
   let s := i_st x in let g := i_gs x in
   negb (g_leak g) && implb' (wdone s && cleaned s && negb (i_tm x) && negb (c_oneway c)) (negb (up_alive s)).
 
+(* C02 (proxy half): the pooled per-request objects (the downStream and the pooled upstreamRequest) are given back only when
+   nothing of this request can reach them any more: no timer armed (no reset flag was set at that moment: part of giveStream's own test),
+   a single attempt, answered; in particular no
+   attempt was abandoned unanswered (a reply already under way could still reach its listener) *)
+Definition good_c02 (c : cfg) (x : ist) : bool :=
+  let s := i_st x in
+  implb' (gave s)
+         (negb (abandoned s) && (nnew s <=? 1)%nat && negb (global_armed s) && negb (up_alive s) &&
+          match try_armed s with None => true | Some _ => false end && cleaned s).
+
 (* C14 *)
 Definition good_c14 (c : cfg) (x : ist) : bool :=
   let s := i_st x in let g := i_gs x in
@@ -143,7 +153,7 @@ Definition good_c14_reply (c : cfg) (x : ist) : bool :=
           match g_reply_kind g with Some (KUp, _) => false | Some _ => true | None => false end).
 
 Definition good_all (src : srcp) (c : cfg) (x : ist) : bool :=
-  good_c03 c x && good_timeout src c x && good_c10_gauge c x && good_c10_res c x && good_c10_streams c x && good_c14 c x && good_c14_reply c x &&
+  good_c03 c x && good_timeout src c x && good_c10_gauge c x && good_c10_res c x && good_c10_streams c x && good_c02 c x && good_c14 c x && good_c14_reply c x &&
   good_c17 src c x.
 
 (* ---------- configuration families ---------- *)
